@@ -54,6 +54,49 @@ def make_lattice(variant=0):
     return lat
 
 
+def random_lattice_spec(rng):
+    """a random class hierarchy as [(name, (base names...)), ...]; long chains are likely (depth matters: the package walks the MRO), and every
+    spec is validated here so that building it later cannot fail on an inconsistent MRO"""
+    n = rng.randint(3, 18)
+    chain = rng.choice((0.3, 0.6, 0.9))
+    spec, built = [], {}
+    for i in range(n):
+        name = 'N%d' % i
+        if i == 0:
+            bases = ()
+        elif rng.random() < chain:
+            bases = ('N%d' % (i - 1),)
+        else:
+            bases = tuple(rng.sample(['N%d' % j for j in range(i)], min(i, rng.choice((1, 1, 2, 2, 3)))))
+        try:
+            cls = type(name, tuple(built[b] for b in bases) or (object,), {})
+        except TypeError:
+            bases = ('N%d' % (i - 1),)
+            cls = type(name, (built[bases[0]],), {})
+        built[name] = cls
+        spec.append((name, bases))
+    return tuple(spec)
+
+
+def lattice_from_spec(spec):
+    _uid[0] += 1
+    mod = 'verif_rlattice_%d' % _uid[0]
+    lat = {}
+    for name, bases in spec:
+        qual = ('Outer.' + name) if name.endswith(('3', '7')) else name
+        lat[name] = type(name, tuple(lat[b] for b in bases) or (object,), {'__module__': mod, '__qualname__': qual})
+    return lat
+
+
+def teardown(lat):
+    """test teardown: registrations by name that were never resolved, and predicates, would otherwise pile up in the forked child from history to
+    history (the number of pending by-name registrations is visible to the package: it may legitimately choose its search order by it)"""
+    for cls in lat.values():
+        if cls is not object:
+            ppm._DEFERRED_DISPATCH_BY_NAME.pop(cls.__module__ + '.' + cls.__qualname__, None)
+    ppm._PREDICATE_REGISTRY[:] = [(p_, fn) for p_, fn in ppm._PREDICATE_REGISTRY if getattr(fn, 'lattice', None) is not lat]
+
+
 def make_printer(tag):
     def printer(value, ctx):
         return tag
@@ -158,8 +201,19 @@ def live_projection(lat):
 
 def run_history(ops, obs):
     """ops: list of tuples. Returns None or (key, message). obs: Counter-like dict for monitor statistics."""
-    with_object = any(o[1] == 'O' for o in ops)
-    lat = make_lattice(-1 if with_object else len(ops) + sum(len(o[1]) + ord(o[1][0]) for o in ops))
+    if ops and ops[0][0] == 'lattice':
+        lat = lattice_from_spec(ops[0][1])
+        ops = ops[1:]
+    else:
+        with_object = any(o[1] == 'O' for o in ops)
+        lat = make_lattice(-1 if with_object else len(ops) + sum(len(o[1]) + ord(o[1][0]) for o in ops))
+    try:
+        return _run_history(lat, ops, obs)
+    finally:
+        teardown(lat)
+
+
+def _run_history(lat, ops, obs):
     m = Model(lat)
     tagn = [0]
 
@@ -251,6 +305,8 @@ def alphabet(names):
 
 
 def nontrivial(ops):
+    if ops and ops[0][0] == 'lattice':
+        ops = ops[1:]
     seen_reg = False
     for op in ops:
         if op[0].startswith('reg'):
@@ -326,6 +382,37 @@ def run_shard(sh):
         if i % 2500 == 0:
             sh.sample({'history': [list(o) for o in ops]})
     flush()
+    # random class hierarchies (3-18 classes, chains up to 18 deep, multiple inheritance), the hierarchy being part of the case
+    for i in range(12000 if quick else 200000):
+        idx += 1
+        if not sh.mine(idx):
+            continue
+        rng = V.rng_for('c15l', sh.seed, i)
+        spec = random_lattice_spec(rng)
+        names = [nm for nm, _ in spec]
+        # operations concentrate on one random line of descent (that is where registrations interact)
+        leaf = rng.choice(names[len(names) // 2:])
+        line = [c.__name__ for c in lattice_from_spec(spec)[leaf].__mro__ if c is not object]
+        def pick():
+            return rng.choice(line) if rng.random() < 0.8 else rng.choice(names)
+        ops = [('lattice', spec)]
+        for _ in range(rng.randint(3, 12)):
+            r = rng.random()
+            if r < 0.45:
+                ops.append((rng.choice(('regn', 'regn', 'regc', 'regp')), pick()))
+            elif r < 0.8:
+                ops.append(('print', pick()))
+            else:
+                ops.append(('isreg', pick(), rng.choice(FLAGS)))
+        ops = tuple(ops)
+        sh.counters['histories on random class hierarchies'] += 1
+        sh.see('hierarchy depth (longest MRO)', max(len(c.__mro__) for c in lattice_from_spec(spec).values()) - 1)
+        pending.append(ops)
+        if len(pending) >= 100:
+            flush()
+        if i % 2500 == 0:
+            sh.sample({'history': [list(o) for o in ops]})
+    flush()
     # histories that register printers for `object` itself (catch-all): global effect, so each runs in a fork of its own
     full_o = alphabet(NAMES + ['O'])
     for i in range(500 if quick else 8000):
@@ -354,7 +441,8 @@ def run_shard(sh):
 
 def finalize(m):
     for name in ('prints dispatched to a tagged printer', 'prints falling back to repr', 'is_registered answers verified', 'state hook comparisons',
-                 'invalid flag combination rejected', 'prints with direct+deferred ambiguity', 'histories with a printer registered for object'):
+                 'invalid flag combination rejected', 'prints with direct+deferred ambiguity', 'histories with a printer registered for object',
+                 'histories on random class hierarchies'):
         if not m.counters.get(name):
             m.inconclusive.append('monitor never reached: ' + name)
 
